@@ -9,7 +9,7 @@ parameter (`Callback`, DESIGN §4) whose ordinal is the number of earlier calls
 within the operation, in the order the operand is iterated.
 -/
 import TraitsVerif.Py.Set
-namespace TraitsVerif.Model
+namespace TraitsVerif.Model.SetM
 open TraitsVerif TraitsVerif.Py
 open TraitsVerif.Py.PSet (insert erase union ofList inter diff symm popChoice Op)
 
@@ -328,4 +328,4 @@ def setModelledMutators : List String :=
   ["__iand__", "__ior__", "__isub__", "__ixor__", "add", "clear", "difference_update", "discard",
    "intersection_update", "pop", "remove", "symmetric_difference_update", "update"]
 
-end TraitsVerif.Model
+end TraitsVerif.Model.SetM
